@@ -333,8 +333,6 @@ func (s *Sys) CheckSparse(witness []*big.Int, sol *Solution) (*SparseReport, err
 			rep.BadPub = append(rep.BadPub, i)
 		}
 		see(i, sol.L[i])
-		see(0, sol.R[i])
-		see(0, sol.O[i])
 	}
 	for i, g := range s.Gates {
 		l, r, o := sol.L[np+i], sol.R[np+i], sol.O[np+i]
@@ -345,12 +343,8 @@ func (s *Sys) CheckSparse(witness []*big.Int, sol *Solution) (*SparseReport, err
 			rep.BadGates = append(rep.BadGates, i)
 		}
 	}
-	// padding rows carry wire 0 at every position
-	for i := n; i < len(sol.L) && i < len(sol.R) && i < len(sol.O); i++ {
-		see(0, sol.L[i])
-		see(0, sol.R[i])
-		see(0, sol.O[i])
-	}
+	// padding rows and the R / O positions of the public placeholder rows have zero
+	// selectors: their values are irrelevant to the statement and are not checked here
 	// witness wires that occur in gates must carry the witness values
 	for w := 0; w < len(witness); w++ {
 		if v, ok := val[w]; ok && v.Cmp(witness[w]) != 0 {
